@@ -6,13 +6,19 @@ import vlib, histplan
 KEYS_Q = ["SO2_d", "SE2_d", "SO3_d", "SE3_d", "SE_2_3_d", "SGal3_d", "R3_d", "SE3_f", "SGal3_f"]
 KEYS_T = KEYS_Q + ["SO2_f", "SE2_f", "SO3_f", "SE_2_3_f", "R3_f"]
 
+def _killpg(p):
+    """kill timeout AND the JVM it started (the simulation never ends by itself)"""
+    import signal
+    try: os.killpg(os.getpgid(p.pid), signal.SIGKILL)
+    except Exception: p.kill()
+
 def simulate(n, depth_cfg, seed, timeout=120):
     """first n behaviours printed by TLC -simulate on Manif.tla (deterministic for a given seed)"""
     vlib.ensure_java()
     md = os.path.join(vlib.CACHE, "tlc", "sim_%d" % os.getpid()); os.makedirs(md, exist_ok=True)
     cmd = ["timeout", str(timeout), "java", "-XX:+UseParallelGC", "-Xss64m", "-cp", ":".join([vlib.JAR, vlib.CMJAR]), "tlc2.TLC",
            "-noGenerateSpecTE", "-simulate", "-seed", str(seed), "-depth", "40", "-workers", "1", "-metadir", md, "-config", depth_cfg, "Manif.tla"]
-    p = subprocess.Popen(cmd, cwd=vlib.SPEC, stdout=subprocess.PIPE, stderr=subprocess.STDOUT, universal_newlines=True)
+    p = subprocess.Popen(cmd, cwd=vlib.SPEC, stdout=subprocess.PIPE, stderr=subprocess.STDOUT, universal_newlines=True, start_new_session=True)
     res = []
     for line in p.stdout:
         line = line.rstrip("\n")
@@ -20,8 +26,8 @@ def simulate(n, depth_cfg, seed, timeout=120):
             res.append(json.loads(json.loads(line)))
             if len(res) >= n: break
         elif "Error:" in line or "violated" in line:
-            p.kill(); raise vlib.ModelError("Manif.tla simulation reported: " + line)
-    p.kill(); p.wait(); shutil.rmtree(md, ignore_errors=True)
+            _killpg(p); raise vlib.ModelError("Manif.tla simulation reported: " + line)
+    _killpg(p); p.wait(); shutil.rmtree(md, ignore_errors=True)
     if len(res) < n: raise vlib.ModelError("Manif.tla simulation produced only %d of %d behaviours" % (len(res), n))
     return res
 
